@@ -1,11 +1,13 @@
 (* C08 — go.mod and go.work edit operations do what a simple set/map model says.
-   Property theorems only.  Keyed model: [kstate]/[kstep] in Modfile/EditSpec.v. *)
+   Property theorems only.  Keyed model: [kstate]/[kstep] in Modfile/EditSpec.v, written from
+   the doc comments of the operations; [abs f] = the typed lists of f without cleared
+   entries.  Proofs: Modfile/EditProofsTyped.v, EditProofsComments.v. *)
 From Verif.Base Require Import Bytes.
-From Verif.Modfile Require Import EditModel EditOps EditSpec EditProofsTyped.
+From Verif.Modfile Require Import EditModel EditOps EditSpec EditProofsTyped EditProofsHeap EditProofsComments.
 
-(* Every operation other than the ones that sort blocks refines its documented step on
-   the keyed collections: same error result, and the abstraction of the new typed lists
-   is the step applied to the abstraction of the old ones. *)
+(* Every operation that does not sort blocks refines its documented step on the keyed
+   collections: same error result, and the abstraction of the new typed lists is the step
+   applied to the abstraction of the old ones.  No hypothesis on the file. *)
 Theorem C08_edits_refine_keyed_spec_simple : forall o f,
   simple_op o = true -> valid_args o = true ->
   match apply o f with
@@ -15,3 +17,55 @@ Theorem C08_edits_refine_keyed_spec_simple : forall o f,
   end.
 Proof. exact apply_refines_simple. Qed.
 Print Assumptions C08_edits_refine_keyed_spec_simple.
+
+(* SortBlocks (File and WorkFile): the documented de-duplication, provided live exclude /
+   replace / tool entries have lines of their own ([DedupWf], part of coherence). *)
+Theorem C08_sort_blocks_refines : forall f,
+  DedupWf f -> abs (sort_blocks f) = fst (kstep SortBlocks (abs f)).
+Proof. exact sort_blocks_abs. Qed.
+Print Assumptions C08_sort_blocks_refines.
+
+Theorem C08_work_sort_blocks_refines : forall f,
+  DedupWf f -> abs (w_sort_blocks f) = fst (kstep WSortBlocks (abs f)).
+Proof. exact w_sort_blocks_abs. Qed.
+Print Assumptions C08_work_sort_blocks_refines.
+
+(* A later operation sees what an earlier one did: e.g. dropping the retraction that was
+   just added leaves no entry for it. *)
+Example C08_later_op_sees_earlier : forall f (lo hi rat : str) f1 f2,
+  add_retract f lo hi rat = ROk f1 -> drop_retract f1 lo hi = Some f2 ->
+  ~ In (lo, hi, rat) (k_retract (abs f2)).
+Proof.
+  intros f lo hi rat f1 f2 H1 H2. rewrite (drop_retract_abs _ _ _ _ H2). cbn.
+  unfold drop. intros Hin. apply filter_In in Hin. destruct Hin as [_ Hin].
+  rewrite !str_eqb_refl in Hin. discriminate.
+Qed.
+
+(* Comments.  [keeps_except T s s']: every line that exists in s and is not in T has in s'
+   the comments it had in s, possibly extended at the outside by the comments of a
+   one-line block that Cleanup collapsed ([com_le]).  [targets o f] are the lines of the
+   typed entries that o addresses by key. *)
+Theorem C08_untargeted_lines_keep_comments : forall o f,
+  match apply o f with
+  | ROk f' | RErr f' => keeps_except (targets o f) (fsyn f) (fsyn f')
+  | RPanic => True
+  end.
+Proof. exact comments_kept_op. Qed.
+Print Assumptions C08_untargeted_lines_keep_comments.
+
+(* ... and for whole sequences: only lines addressed by some operation of the sequence
+   (in the state it was applied to) can lose or change a comment. *)
+Theorem C08_untargeted_lines_keep_comments_run : forall ops f errs f',
+  run_ops ops f = RunOk errs f' ->
+  keeps_except (seq_targets ops f) (fsyn f) (fsyn f').
+Proof. intros ops f errs f'. apply comments_kept_run. Qed.
+Print Assumptions C08_untargeted_lines_keep_comments_run.
+
+(* NOT PROVED here:
+   edits_refine_keyed_spec for SetRequire / SetRequireSeparateIndirect / SetUse / AddTool as
+     an equation with [kstep] (the exact-set consequence is C16_set_*_exact; the equation
+     is evaluated by the correspondence run on every case, function EditInv);
+   the composition over sequences needs the preservation of [DedupWf], i.e. the C15
+     coherence invariant (see Props/C15.v);
+   result_parses_strictly and "untargeted lines stay in the tree" (syntax-tree part of
+     coherence). *)
